@@ -1,6 +1,7 @@
 package props
 
 import (
+	"fmt"
 	"testing"
 
 	"verifh/refmqtt"
@@ -181,6 +182,32 @@ func (h *H) faultActions(rt *rapid.T, fc *faultCounters) map[string]func(*rapid.
 			if h.IsDone(call) && call.Err == nil {
 				h.accepted[level] = append(h.accepted[level], call)
 			}
+		},
+		// A publish without payload is two buffers of which the second is
+		// empty; the connection fails, parks or is closed right after the
+		// packet's last byte. (Only a pipe-like connection makes a Write of
+		// nothing fail or wait by itself.)
+		"emptyPayloadCut": func(rt *rapid.T) {
+			c := h.Current()
+			if c == nil || !c.Accepted() || c.WritersParked() > 0 {
+				rt.Skip("no accepted connection")
+			}
+			level := byte(rapid.IntRange(1, 2).Draw(rt, "level"))
+			topic := fmt.Sprintf("t%d", h.nTopic+1)
+			size := 2 + 2 + len(topic) + 2
+			kind := rapid.SampledFrom([]int{sim.WReset, sim.WTimeout, sim.WPark}).Draw(rt, "kind")
+			c.ArmWrite(sim.WFault{Off: c.OutLen() + size, Kind: kind})
+			h.Act("emptyPayloadCut: fault %s right behind the next packet (%d bytes)", wfaultNames[kind], size)
+			h.forceTopic, h.forceEmpty = topic, true
+			call := h.pub(level, false)
+			h.forceTopic, h.forceEmpty = "", false
+			if c.WritersParked() > 0 {
+				h.Act("break conn=%d", c.N)
+				c.Break(rapid.Bool().Draw(rt, "graceful"))
+				h.SettleCall(call)
+				h.PollExchanges()
+			}
+			h.settleInbound()
 		},
 		"storeFault": func(rt *rapid.T) {
 			kind := rapid.SampledFrom([]byte{'S', 'D', 'L'}).Draw(rt, "op")
